@@ -39,7 +39,7 @@ def opts(tier):
     o.unknown_offset_p = 0.35
     o.nasty_names = 0.05
     o.pad_p = 0.03
-    return o
+    return gen.deepen(o, tier)
 
 
 def generate(rng, tier):
